@@ -333,7 +333,16 @@ def run_library(case):
             elif m["expect"] == "refcount":
                 st["refcount_runs"] = st.get("refcount_runs", 0) + 1
                 if isinstance(got, dict) and "t" in got:
-                    deltas, n_ok, n_exc = got["t"]
+                    deltas, n_ok, n_exc = got["t"][:3]
+                    blocks = got["t"][3] if len(got["t"]) > 3 else 0
+                    st["allocated_block_drift_checks"] = st.get("allocated_block_drift_checks", 0) + 1
+                    # objects the wrapper creates for its results die with the result: over 2000 calls whose results are
+                    # dropped the interpreter's count of allocated blocks stays where it was (a leak of one object per
+                    # call shows as >= 2000; the threshold leaves room for allocator noise)
+                    if blocks >= 1000:
+                        res["violations"].append({"mech": "python-objects-leak-per-call:%s:%s" % (m["path"], _shape(f, op)),
+                                                  "detail": "%s x2000 (%s path): %d more allocated blocks after the results were dropped (ok %d, rejected %d)" % (
+                                                      label, m["path"], blocks, n_ok, n_exc)})
                     if any(d != 0 for d in deltas):
                         res["violations"].append({"mech": "reference-count-drift:%s:%s" % (m["path"], _shape(f, op)),
                                                   "detail": "%s x2000 (%s path): refcount deltas %r (ok %d, rejected %d)" % (label, m["path"], deltas, n_ok, n_exc)})
@@ -384,9 +393,15 @@ SACL_H = """#ifndef SACL_H
 #define SACL_H
 struct Sacl { int nitems; int *ivalue; double *dvalue; int tag; };
 typedef struct Sacl Sacl;
+struct Spt { int i; double d; };
+typedef struct Spt Spt;
 #ifdef __cplusplus
 extern "C" {
 #endif
+int spt_in(const Spt *s);
+int spt_bump(Spt *s, int by);
+void spt_touch(Spt *s);
+void spt_make(Spt *s, int tag);
 Sacl *sacl_global(void);
 void sacl_refill(int base);
 void sacl_resize(int n);
@@ -403,6 +418,10 @@ Sacl *sacl_global(void) { static int once = 0; if (!once) { sacl_refill(1); once
 void sacl_refill(int base) { int i; for (i = 0; i < 8; i++) { iv[i] = base + i; dv[i] = base * 0.5 + i; } }
 void sacl_resize(int n) { g.nitems = n; }
 int sacl_sum(void) { int i, s = g.tag; for (i = 0; i < g.nitems; i++) s += iv[i]; return s; }
+int spt_in(const Spt *s) { return s->i * 2; }
+int spt_bump(Spt *s, int by) { s->i += by; s->d += 0.5; return s->i; }
+void spt_touch(Spt *s) { s->i += 1; }
+void spt_make(Spt *s, int tag) { s->i = tag; s->d = tag * 0.25; }
 """
 SACL_PY = """import json, sys
 sys.path.insert(0, '.')
@@ -425,6 +444,26 @@ out(5, [m.sacl_sum(), s.tag])
 t = m.sacl_global()                    # a second object for the same struct
 m.sacl_refill(20)
 out(6, [list(t.ivalue), list(s.ivalue)])
+# reference counts of a struct object passed in every intent; results are dropped at once (a wrapper that hands back
+# the argument without owning a reference frees the caller's object)
+p = m.Spt(6, 7.0)
+rc0 = sys.getrefcount(p)
+for _ in range(40):
+    m.spt_in(p)
+out(7, [sys.getrefcount(p) - rc0, p.i])
+for _ in range(40):
+    r = m.spt_bump(p, 1)
+    del r
+out(8, [sys.getrefcount(p) - rc0, p.i, p.d])
+for _ in range(40):
+    r = m.spt_touch(p)
+    del r
+out(9, [sys.getrefcount(p) - rc0, p.i])
+q = m.Spt(100, 0.5)
+r = m.spt_bump(p, 1)
+out(10, [r[0] if isinstance(r, tuple) else r, p.i, q.i, p is q])
+w = m.spt_make(5)
+out(11, [w.i, w.d, sys.getrefcount(w) - sys.getrefcount(q)])
 """
 
 
@@ -432,7 +471,8 @@ def sacl_expected():
     iv = lambda b: [b + i for i in range(8)]
     dv = lambda b: [b * 0.5 + i for i in range(8)]
     return {0: [4, iv(1)[:4], dv(1)[:4], 7], 1: [iv(10)[:4], dv(10)[:4]], 2: [2, iv(10)[:2]], 3: [iv(10)[:3], 7 + sum(iv(10)[:3])],
-            4: [iv(10)[:3]], 5: [100 + sum(iv(10)[:3]), 100], 6: [iv(20)[:3], iv(20)[:3]]}
+            4: [iv(10)[:3]], 5: [100 + sum(iv(10)[:3]), 100], 6: [iv(20)[:3], iv(20)[:3]],
+            7: [0, 6], 8: [0, 46, 27.0], 9: [0, 86], 10: [87, 87, 100, False], 11: [5, 1.25, 0]}
 
 
 def run_struct_class(case):
@@ -445,7 +485,10 @@ def run_struct_class(case):
          "options": {"wrap_c": False, "wrap_fortran": False, "wrap_python": True, "wrap_lua": False, "PY_struct_arg": "class", "PY_array_arg": "list"},
          "declarations": [{"decl": "struct Sacl { int nitems; int *ivalue +dimension(nitems); double *dvalue +dimension(nitems); int tag; };"},
                           {"decl": "Sacl *sacl_global(void)"}, {"decl": "void sacl_refill(int base)"}, {"decl": "void sacl_resize(int n)"},
-                          {"decl": "int sacl_sum(void)"}]}
+                          {"decl": "int sacl_sum(void)"},
+                          {"decl": "struct Spt { int i; double d; };"},
+                          {"decl": "int spt_in(const Spt *s)"}, {"decl": "int spt_bump(Spt *s +intent(inout), int by)"},
+                          {"decl": "void spt_touch(Spt *s +intent(inout))"}, {"decl": "void spt_make(Spt *s +intent(out), int tag)"}]}
     sp = {"name": "sacl", "files": {"work/sacl.yaml": workloads.dump_yaml(y)}, "dirs": ["out"], "argv": ["--outdir", "out", "--logdir", "out", "work/sacl.yaml"],
           "monitors": [], "keep": True}
     rr = shroudrun.run(sp)
@@ -488,7 +531,9 @@ def run_struct_class(case):
         exp = sacl_expected()
         what = {0: "first read", 1: "read after the library changed the arrays", 2: "read after the library changed the extent member",
                 3: "read after the caller changed the extent member", 4: "read after a returned list was modified", 5: "scalar member set",
-                6: "two objects for the same struct"}
+                6: "two objects for the same struct", 7: "reference count after intent(in) calls", 8: "reference count after intent(inout) calls that also return a value",
+                9: "reference count after intent(inout) calls returning only the struct", 10: "struct object still the caller's after results were dropped",
+                11: "intent(out) struct"}
         for k, want in exp.items():
             res["stats"]["struct_class_steps"] = res["stats"].get("struct_class_steps", 0) + 1
             if k not in outs:
